@@ -14,7 +14,8 @@ On break: harness `oracle` evaluates the property statement on the real code (Go
 """
 import os
 
-THEOREMS = ["IstioModel.C12.Theorems", "IstioModel.C12.VHostsTheorems", "IstioModel.C12.GatewayTheorems"]
+THEOREMS = ["IstioModel.C12.Theorems", "IstioModel.C12.VHostsTheorems", "IstioModel.C12.GatewayTheorems",
+            "IstioModel.C12.MeshTheorems"]
 STREAMS = ("routes", "requests", "vhosts", "rds", "gw")
 
 WHAT = {
